@@ -13,8 +13,14 @@ amp       every template of verif.props.c12_templates (a file of about 2 KB or l
           A case is {"t": template id, "n": magnitude}.  The file is extracted through the extractor that the router selects for
           its name (list(extractor(BytesIO(data), name)) + get_full_text() of every result) under the deterministic cost meter
           verif.props.c12_meter (sys.monitoring LINE events inside sharepoint2text / olefile / xlrd / openpyxl / pypdf, tracemalloc
-          peak, MemoryError under RLIMIT_AS = 3 GiB, CPU-time back-stop).  Clause `cost`:
-              events <= 2*10^6 + 2000 * size      peak additional memory <= 32 MiB + 64 * size
+          peak, MemoryError under RLIMIT_AS = 3 GiB, CPU-time back-stop; input volume = bytes of the input that the stream delivers
+          plus bytes that slices / scanning methods of the delivered buffers go through: the C-level work on the input that no LINE
+          event shows, e.g. data[:pos].count(..) per item).  Clause `cost`:
+              events <= 2*10^6 + 2000 * size      peak additional memory <= 32 MiB + 64 * size      input volume <= 4 MiB + 64 * size
+          Families added for what lives in C code only: mbox separator lines that delimit EMPTY messages in five layouts (before /
+          after / between real messages, blank lines between, CRLF, nothing but separators), n = 1..10^4 quick / ..10^5 thorough;
+          archives with one member of n zero bytes also for n = per-member limit, limit + 1 and 10^8 in the quick tier (no member
+          is selected there: nothing may be decoded).
           size = uncompressed input size (ZIP package: sum of member sizes; archive: file + members within the per-member limit).
 limits    read_file(path, max_file_size=m) for m in {0, 1, s-1, s, s+1} (txt, docx, zip) x what the path IS (PATH_KINDS: regular file as
           str / pathlib.Path, absolute / relative symbolic link, link to a link, link whose target path is longer than the file,
@@ -22,7 +28,10 @@ limits    read_file(path, max_file_size=m) for m in {0, 1, s-1, s, s+1} (txt, do
           open(path).read() returns, i.e. the size of what read_file would read, whatever a size probe says;  a 7z archive of 100 MiB -1/0/+1
           bytes through the extractor, read_file(max_file_size=0) and read_file();  archive members of limit -1/0/+1 bytes in zip
           (stored, deflated), tar, tar.gz, 7z (copy, LZMA2; one folder per member) for the default per-member limit (10 MiB) and
-          for configure_archive_extraction(max_memory_size=1000 | 65536), with monitors on ZipFile.read/open, TarFile.extractfile,
+          for configure_archive_extraction(max_memory_size=1000 | 65536) x the COMPANY of the big member (OTHERS: a small supported
+          member | nothing | a member of an unsupported type | a hidden member | a second big member - with all but the first, no
+          member at all is selected once big.txt is over the limit; quick: every company at the limit 1000, 'alone' one byte over
+          the default limit; thorough: the full product), with monitors on ZipFile.read/open, TarFile.extractfile,
           LZMADecompressor.decompress and every write-mode open() (audit hook).
 fixtures  every file under sharepoint2text/tests/resources through the same meter: the maxima of events/size and peak/size are
           reported in the evidence to justify the constants (a fixture over budget would be reported like any other case).
@@ -62,10 +71,11 @@ def _seed():
 # ------------------------------------------------------------------------------------------------ amplifier part
 def _extract_fn(name, data):
     from sharepoint2text.parsing.router import get_extractor
+    from verif.props import c12_meter as M
     ext = get_extractor(name)
 
     def fn():
-        res = list(ext(io.BytesIO(data), name))
+        res = list(ext(M.stream_for(data), name))
         tl = 0
         for r in res:
             tl += len(r.get_full_text() or "")
@@ -76,6 +86,8 @@ def _extract_fn(name, data):
 def _outcome(m):
     if m["abort"] or m["memerr"]:
         return "over:" + (m["abort"] or "memerr")
+    if m.get("volume", 0) > m.get("vol_budget", 1 << 62):
+        return "over:volume"
     if m["exc"]:
         return "exc:" + m["exc"]
     v = m["value"]
@@ -103,6 +115,8 @@ def _superlinear(tid, n, m, v):
         facts = []
         if m["events"] > m["ev_budget"] or m["abort"] == "events":
             facts.append(("events", (m["events"] / sn) / max(mq["events"] / sq, 1e-9)))
+        if m.get("volume", 0) > m.get("vol_budget", 1 << 62) or m["abort"] == "volume":
+            facts.append(("volume", (m["volume"] / sn) / max(mq.get("volume", 0) / sq, 1e-9)))
         pk = m["peak"] if m["peak"] is not None else (MEMERR_LOWER_BOUND if m["memerr"] else None)
         if m["memerr"] and pk is not None:
             pk = max(pk, MEMERR_LOWER_BOUND)
@@ -142,8 +156,8 @@ def eval_amp(case):
         v, growth = _superlinear(tid, n, m, v)
     if v:
         fails.append(("cost", f"{T.TEMPLATES[tid]['doc']} | n={n}: file of {len(b['data'])} bytes (uncompressed size {b['size']}): " + "; ".join(v) +
-                      growth + f" [events={m['events']} peak={m['peak']} cpu={m['cpu']}s outcome={m['exc'] or m['value']}]"))
-    info = {"events": m["events"], "peak": m["peak"], "size": b["size"], "file": len(b["data"]), "cpu": m["cpu"], "exc": m["exc"],
+                      growth + f" [events={m['events']} volume={m.get('volume')} peak={m['peak']} cpu={m['cpu']}s outcome={m['exc'] or m['value']}]"))
+    info = {"events": m["events"], "volume": m.get("volume"), "peak": m["peak"], "size": b["size"], "file": len(b["data"]), "cpu": m["cpu"], "exc": m["exc"],
             "value": m["value"]}
     harness = None
     if T.TEMPLATES[tid]["expect"] == "ok" and n == T.magnitudes(tid, "quick")[0] and not v and (m["exc"] or not (m["value"] and m["value"][0])):
@@ -320,12 +334,29 @@ def member_bytes(k):
     return (BIG_TOK + " ").encode() + b"a" * (k - len(BIG_TOK) - 1)
 
 
-def member_archive(c, k):
-    """archive [big.txt (k bytes), ok.txt]; returns (name, bytes)"""
+OTHERS = ("ok", "alone", "unsup", "hidden", "twobig")
+
+
+def member_archive(c, k, o="ok"):
+    """archive [big.txt (k bytes)] + its company o; returns (name, bytes).  o says what ELSE is in the archive:
+        ok      ok.txt, a small supported member (the only company in which some member is always selected)
+        alone   nothing                                     unsup   u.bin, a small member of an unsupported type
+        hidden  .ok.txt, a small hidden member              twobig  big2.txt, a second member of k bytes
+    (with every company but 'ok' NO member at all qualifies once k is over the limit)"""
     from verif.gen import sevenz as SZ, tarforge as TF, zipforge as ZF
     import zipfile
     big, ok = member_bytes(k), (_toks()[1] + " small").encode()
-    members = [{"name": "big.txt", "data": big}, {"name": "ok.txt", "data": ok}]
+    members = [{"name": "big.txt", "data": big}]
+    if o == "ok":
+        members.append({"name": "ok.txt", "data": ok})
+    elif o == "unsup":
+        members.append({"name": "u.bin", "data": bytes(range(256))})
+    elif o == "hidden":
+        members.append({"name": ".ok.txt", "data": ok})
+    elif o == "twobig":
+        members.append({"name": "big2.txt", "data": big})
+    elif o != "alone":
+        raise ValueError(o)
     if c in ("zip-s", "zip-d"):
         return "t.zip", ZF.zip_honest(members, zipfile.ZIP_STORED if c == "zip-s" else zipfile.ZIP_DEFLATED)
     if c in ("tar-lnk", "tar-sym", "tar.gz-lnk"):
@@ -405,7 +436,8 @@ def eval_member_limit(case):
     from sharepoint2text.parsing.router import get_extractor
     L = case["L"] or MEMBER_LIMIT
     k = L + int(case["d"])
-    name, data = member_archive(case["c"], k)
+    o = case.get("o", "ok")
+    name, data = member_archive(case["c"], k, o)
     AE.configure_archive_extraction(max_memory_size=L)
     exc, res = None, []
     mon = _Monitors()
@@ -426,7 +458,8 @@ def eval_member_limit(case):
     BIG_TOK, OK_TOK = _toks()
     has_big = any(BIG_TOK in t for t in texts)
     has_ok = any(OK_TOK in t for t in texts)
-    what = f"{case['c']} archive [big.txt of {k} bytes, ok.txt], per-member limit {L}" + ("" if case["L"] is None else " (configured)")
+    company = {"ok": ", ok.txt", "alone": "", "unsup": ", u.bin (unsupported type)", "hidden": ", .ok.txt (hidden)", "twobig": f", big2.txt of {k} bytes"}[o]
+    what = f"{case['c']} archive [big.txt of {k} bytes{company}], per-member limit {L}" + ("" if case["L"] is None else " (configured)")
     fails = []
     if k <= L:
         if exc is not None or not has_big:
@@ -436,15 +469,16 @@ def eval_member_limit(case):
         if exc is not None or has_big:
             fails.append(("member_over_limit_skipped", f"{what}: big.txt is over the limit and must be skipped; got "
                                                        f"{type(exc).__name__ + ': ' + str(exc)[:120] if exc else 'a result with its text'}"))
-        elif not has_ok:
+        elif not has_ok and o == "ok":
             fails.append(("member_over_limit_others_lost", f"{what}: skipping big.txt lost ok.txt as well ({len(res)} results)"))
         bad = []
         for h in mon.hits:
-            if h[0] in ("ZipFile.read", "ZipFile.open", "TarFile.extractfile") and h[1] in ("big.txt", "alias.txt"):
-                bad.append(f"{h[0]}(big.txt)")
-            elif h[0] == "LZMADecompressor.decompress" and h[1] >= k and "-solid" not in case["c"]:
+            if h[0] in ("ZipFile.read", "ZipFile.open", "TarFile.extractfile") and h[1] in ("big.txt", "big2.txt", "alias.txt"):
+                bad.append(f"{h[0]}({h[1] if h[1] == 'big2.txt' else 'big.txt'})")
+            elif h[0] == "LZMADecompressor.decompress" and h[1] >= k and ("-solid" not in case["c"] or o != "ok"):
+                # (a solid folder has to be decoded only if it holds a selected member as well)
                 bad.append(f"LZMADecompressor.decompress -> {h[1]} bytes")
-            elif h[0] == "open-for-writing" and os.path.basename(h[1]) == "big.txt":
+            elif h[0] == "open-for-writing" and os.path.basename(h[1]) in ("big.txt", "big2.txt"):
                 bad.append(f"open({h[1]!r}, 'wb')")
         if bad:
             fails.append(("member_over_limit_decompressed", f"{what}: the oversize member was decompressed / written: " + ", ".join(sorted(set(bad)))))
@@ -484,6 +518,7 @@ def eval_fixture(case):
     fails = [("cost", f"fixture {rel} ({len(data)} bytes, uncompressed {size}): " + "; ".join(v))] if v else []
     return {"fails": fails, "outcome": "fixture:" + _outcome(m),
             "info": {"p": rel, "size": size, "events": m["events"], "peak": m["peak"], "ev_per_byte": round(m["events"] / max(size, 1), 2),
+                     "volume": m.get("volume", 0), "vol_per_byte": round(m.get("volume", 0) / max(size, 1), 2),
                      "peak_per_byte": None if m["peak"] is None else round(m["peak"] / max(size, 1), 2)}}
 
 
@@ -586,6 +621,8 @@ def shrinks(case):
     """amp: the same template at every smaller magnitude of its (thorough) lattice, smallest first;
     member_limit: the small configured limit and the copy coder first (cheaper to replay, same boundary)"""
     if case.get("k") == "member_limit":
+        if case.get("o", "ok") not in ("ok", "alone"):
+            yield dict(case, o="alone")
         if case["L"] != 1000:
             yield dict(case, L=1000)
         if case["c"] == "7z-lzma2":
@@ -617,7 +654,8 @@ def embeds(small, big):
     if small.get("k", "amp") == "amp":
         return small["t"] == big["t"] and big["n"] >= small["n"]
     if small.get("k") == "member_limit":
-        return _family(small["c"]) == _family(big["c"]) and small["d"] == big["d"]
+        return (_family(small["c"]) == _family(big["c"]) and small["d"] == big["d"] and
+                (small.get("o", "ok") == "ok") == (big.get("o", "ok") == "ok"))
     if small.get("k") == "max_file_size":
         return small["m"] == big["m"] and _via_class(small.get("via", "reg")) == _via_class(big.get("via", "reg"))
     return small == big
@@ -636,6 +674,8 @@ def fingerprint_view(case):
     if case.get("k", "amp") == "amp":
         return {"t": case["t"]}
     if case.get("k") == "member_limit":
+        if case.get("o", "ok") != "ok":
+            return {"k": "member_limit", "container": _family(case["c"]), "d": case["d"], "selected": "none"}
         return {"k": "member_limit", "container": _family(case["c"]), "d": case["d"]}
     if case.get("k") == "max_file_size" and case.get("via", "reg") != "reg":
         return {"k": "max_file_size", "m": case["m"], "path": _via_class(case["via"])}
@@ -663,6 +703,10 @@ def cases(tier):
         for L in (None, 1000, 65536):
             for d in (-1, 0, 1):
                 out.append({"k": "member_limit", "c": c, "L": L, "d": d})
+                for o in OTHERS[1:]:
+                    # quick: the small configured limit with every company; the default limit over the limit, alone
+                    if tier != "quick" or L == 1000 or (L is None and d == 1 and o == "alone"):
+                        out.append({"k": "member_limit", "c": c, "L": L, "d": d, "o": o})
     for p in fixture_list():
         out.append({"k": "fixture", "p": p})
     return out
@@ -741,6 +785,7 @@ def run(ctx):
     amp_over = {}
     slow = []
     near = []
+    vol_max = None
     for (fmt, case), (st, r, _note) in zip(args, res):
         _SWEEP[_key(fmt, case)] = _as_fails(case, st, r)
         if st == "done":
@@ -771,9 +816,14 @@ def run(ctx):
         if part == "amp" and not r["fails"] and r.get("info"):
             i = r["info"]
             eb, mb = M.budgets(i["size"])
-            fr = max(i["events"] / eb, (i["peak"] or 0) / mb)
+            vb = M.vol_budget(i["size"])
+            fr = max(i["events"] / eb, (i["peak"] or 0) / mb, (i.get("volume") or 0) / vb)
             if fr >= 0.5:
-                near.append({"case": case, "events_fraction": round(i["events"] / eb, 3), "memory_fraction": round((i["peak"] or 0) / mb, 3)})
+                near.append({"case": case, "events_fraction": round(i["events"] / eb, 3), "memory_fraction": round((i["peak"] or 0) / mb, 3),
+                             "volume_fraction": round((i.get("volume") or 0) / vb, 3)})
+            vr = (i.get("volume") or 0) / max(i["size"], 1)
+            if vol_max is None or vr > vol_max[0]:
+                vol_max = (vr, case, i.get("volume"), i["size"])
     # the double replay of every failing case, in parallel (triage asks for it case by case)
     failing = sorted({_key(f[1], f[2]) for f in fails})
     rargs = [tuple(json.loads(k)) for k in failing for _i in (0, 1)]
@@ -785,6 +835,7 @@ def run(ctx):
     fxb = [i for i in fx if i["size"] >= 4096]          # per-byte ratios of tiny files only show the fixed base cost
     fx_ev = max(fxb, key=lambda i: i["ev_per_byte"]) if fxb else None
     fx_pk = max((i for i in fxb if i["peak_per_byte"] is not None), key=lambda i: i["peak_per_byte"], default=None)
+    fx_vol = max(fxb, key=lambda i: i["vol_per_byte"]) if fxb else None
     fx_abs_ev = max(fx, key=lambda i: i["events"]) if fx else None
     fx_abs_pk = max((i for i in fx if i["peak"] is not None), key=lambda i: i["peak"], default=None)
     samples = []
@@ -801,18 +852,23 @@ def run(ctx):
                    "distinct (format, outcome class) pairs, outcome class in ok:results | ok:empty | exc:<type> | over:<counter> | "
                    "limit verdict classes",
            "templates": len(T.TEMPLATES), "per_part": per_part, "outcomes": dict(sorted(outcomes.items())),
-           "budget": {"events": "2e6 + 2000 * size", "memory_bytes": "32 MiB + 64 * size", "cpu_backstop_s": M.CPU_LIMIT,
+           "budget": {"events": "2e6 + 2000 * size", "memory_bytes": "32 MiB + 64 * size", "input_volume_bytes": "4 MiB + 64 * size",
+                      "cpu_backstop_s": M.CPU_LIMIT,
                       "rlimit_as": "3 GiB", "counted_packages": M.PACKAGES},
            "fixture_maxima": {"files_measured": len(fx), "note": "per-byte maxima over fixtures of at least 4 KiB; budget constants: 2000 events / byte, 64 bytes / byte",
                               "max_events_per_byte": fx_ev and {"p": fx_ev["p"], "value": fx_ev["ev_per_byte"], "size": fx_ev["size"]},
+                              "max_volume_per_byte": fx_vol and {"p": fx_vol["p"], "value": fx_vol["vol_per_byte"], "size": fx_vol["size"]},
                               "max_peak_per_byte": fx_pk and {"p": fx_pk["p"], "value": fx_pk["peak_per_byte"], "size": fx_pk["size"]},
                               "max_events": fx_abs_ev and {"p": fx_abs_ev["p"], "value": fx_abs_ev["events"], "size": fx_abs_ev["size"]},
                               "max_peak": fx_abs_pk and {"p": fx_abs_pk["p"], "value": fx_abs_pk["peak"], "size": fx_abs_pk["size"]}},
            "slowest_cases_cpu_s": [{"cpu": c, "case": json.loads(k)} for c, k in slow[:12]],
+           "max_input_volume_per_byte_within_budget": vol_max and {"case": vol_max[1], "volume": vol_max[2], "size": vol_max[3], "per_byte": round(vol_max[0], 2)},
            "within_budget_but_above_half": sorted(near, key=lambda x: json.dumps(x["case"], sort_keys=True)),
            "over_budget_magnitudes": {k: sorted(v) for k, v in sorted(amp_over.items())},
            "bounds": {"tier": ctx.tier, "lattices": {k: v[0 if ctx.quick else 1] for k, v in T.MAGS.items()},
                       "doc_picture_headers": T.DOC_PIC_MAGS[0 if ctx.quick else 1], "doc_stream_bytes": T.DOC_STREAM,
+                      "member_limit_company": list(OTHERS), "member_limit_company_quick": "company != ok: configured limit 1000 (all d); default limit: d=+1, alone",
+                      "mbox_empty_message_layouts": sorted(T.MBOX_EMPTY), "archive_zero_member_sizes": T.ZMAGS[0 if ctx.quick else 1],
                       "max_file_size_path_kinds": list(PATH_KINDS), "max_file_size_limits": ["0", "1", "s-1", "s", "s+1"]}}
     assumptions = [
         "uncompressed input size: ZIP packages = sum of the (honest) uncompressed member sizes; archives = file size + members that are "
